@@ -128,7 +128,7 @@ Proof. constructor; [constructor|intros c []|exact I|exact I]. Qed.
 Theorem close_assert_holds st :
   st_wf P cs limit st -> size st = 0 -> map st <> [] -> length (map st) = 1%nat.
 Proof.
-  intros [_ [[H _]|[_ H]]] Z Hn; [lia|]. destruct (map st); [congruence|]. cbn [length] in *. lia.
+  clear CS LIM. intros [_ [[H _]|[_ H]]] Z Hn; [lia|]. destruct (map st); [congruence|]. cbn [length] in *. lia.
 Qed.
 
 Theorem close_wf st :
@@ -140,7 +140,7 @@ Theorem close_wf st :
      (forall c, ~ In c (map st) -> get (tbl st') c = get (tbl st) c)) /\
   (size st <> 0 -> st' = st).
 Proof.
-  intros W st'. unfold close_release in st'. destruct (map st) as [|c r] eqn:M.
+  clear CS LIM. intros W st'. unfold close_release in st'. destruct (map st) as [|c r] eqn:M.
   { subst st'. split; [exact W|]. split; [reflexivity|]. split; [|reflexivity].
     intros Z. rewrite M. split; [reflexivity|]. split; [exact Z|]. split; [intros c []|reflexivity]. }
   destruct (N.eqb_spec (size st) 0) as [Z|Z]; cbn [andb] in st'; subst st'.
@@ -165,7 +165,7 @@ Lemma unlink_go_fold m : forall f fuel,
   (forall c, In c m -> min_valid P <= c <= max_valid P) -> (length m <= fuel)%nat ->
   ftbl (unlink_go P fuel f (hd 0 m)) = ftbl (fold_left mark_free m f).
 Proof.
-  destruct POK as (Pm & Pmm & Pe).
+  clear CS LIM. destruct POK as (Pm & Pmm & Pe).
   induction m as [|a r IH]; intros f fuel Hn N L E R F; [congruence|].
   destruct fuel as [|k]; [cbn in F; lia|]. cbn [hd unlink_go fold_left].
   destruct (R a (or_introl eq_refl)) as [R1 R2].
@@ -190,7 +190,7 @@ Theorem unlink_frees_all f m :
   length t' = length (ftbl f) /\
   (forall c, In c m -> get t' c = 0) /\ (forall c, ~ In c m -> get t' c = get (ftbl f) c).
 Proof.
-  intros W t'. destruct (nil_or_ne m) as [->|Hn].
+  clear CS LIM. intros W t'. destruct (nil_or_ne m) as [->|Hn].
   - assert (E : t' = ftbl f).
     { unfold t', unlink_chain. cbn [hd unlink_go]. destruct POK as (Pm & _).
       destruct (N.leb_spec (min_valid P) 0); [lia|reflexivity]. }
